@@ -113,11 +113,27 @@ fn report(n: &N, ids: &[usize]) -> String {
 
 /// op <name> <k> <id0,..> <ntt> <tt...> [extra tokens...]
 fn run_op(tok: &[&str]) -> String {
+    let env = BDDEnv::<NamedSymbol>::new();
+    run_op_in(&env, tok, false)
+}
+
+/// every node reachable from n is the node stored in the environment's table (pointer identity)
+fn all_shared(env: &BDDEnv<NamedSymbol>, n: &N) -> bool {
+    let own = match env.nodes.borrow().get(n.as_ref()) {
+        Some(e) => Rc::ptr_eq(e, n),
+        None => false,
+    };
+    own && match n.as_ref() {
+        BDD::Choice(t, _, f) => all_shared(env, t) && all_shared(env, f),
+        _ => true,
+    }
+}
+
+fn run_op_in(env: &BDDEnv<NamedSymbol>, tok: &[&str], share: bool) -> String {
     let name = tok[0];
     let k: usize = tok[1].parse().unwrap();
     let ids: Vec<usize> = if k == 0 { vec![] } else { tok[2].split(',').map(|x| x.parse().unwrap()).collect() };
     let ntt: usize = tok[3].parse().unwrap();
-    let env = BDDEnv::<NamedSymbol>::new();
     let ops: Vec<N> = (0..ntt).map(|i| intern(&env, &canon(&parse_tt(tok[4 + i]), &ids))).collect();
     let ex = &tok[4 + ntt..];
     let before: Vec<String> = ops.iter().map(ser).collect();
@@ -171,7 +187,7 @@ fn run_op(tok: &[&str]) -> String {
             // result truth table; only k <= 2.  ex[0] = comma separated list of result tts indexed by argument tt value
             let table: Vec<Vec<bool>> = ex[0].split(',').map(parse_tt).collect();
             let ids2 = ids.clone();
-            let envr = &env;
+            let envr = env;
             let steps = std::cell::Cell::new(0usize);
             let r = env.fp(ops[0].clone(), |x| {
                 steps.set(steps.get() + 1);
@@ -201,7 +217,8 @@ fn run_op(tok: &[&str]) -> String {
         }
     }
     all_ids.sort();
-    format!("{} unchanged={}", report(&res, &all_ids), if before == after { 1 } else { 0 })
+    let sh = if share { format!(" shared={}", if all_shared(env, &res) { 1 } else { 0 }) } else { String::new() };
+    format!("{} unchanged={}{}", report(&res, &all_ids), if before == after { 1 } else { 0 }, sh)
 }
 
 fn debug_tree(t: &SymbolicBDD) -> String {
@@ -332,6 +349,21 @@ fn main() {
         }
         let res = panic::catch_unwind(|| match tok[0] {
             "op" => run_op(&tok[1..]),
+            "share" => {
+                let env = BDDEnv::<NamedSymbol>::new();
+                run_op_in(&env, &tok[1..], true)
+            }
+            "seq" => {
+                // seq op ... ;; op ...   : the operations share one environment; the last answer is reported
+                let env = BDDEnv::<NamedSymbol>::new();
+                let mut last = String::from("error empty");
+                for part in tok[1..].split(|t| *t == ";;") {
+                    if part.len() > 1 && part[0] == "op" {
+                        last = run_op_in(&env, &part[1..], false);
+                    }
+                }
+                last
+            }
             "formula" => run_formula(&tok[1..]),
             "set" => run_set(&tok[1..]),
             _ => "error unknown command".to_string(),
